@@ -128,6 +128,21 @@ def run(res, tier):
                         pass
             return c, r1, d1, r2, dict(outside=True, produced=produced), step_r
         d2 = pl.h5(r2["h5"]) if r2["rc"] == 0 and os.path.exists(r2["h5"]) else None
+        if d2 is not None and "error" not in d2 and sr is None and sv == 1 and var == 0 and t1 in (1, TOTAL // 2, TOTAL - 1):
+            # the continuation written over the file it starts from (-i x.h5 -o x.h5): the same state must be loaded and the same end state reached
+            inpl = os.path.join(wd, "inplace_%s.h5" % tag)
+            shutil.copyfile(r1["h5"], inpl)
+            a3 = list(a2); a3[a3.index("-i") + 1] = inpl
+            r3 = pl.run(exe, a3, wd, out=os.path.basename(inpl))
+            d3 = pl.h5(inpl) if r3["rc"] == 0 and os.path.exists(inpl) else None
+            d2["_inplace"] = dict(cmd=r3["cmd"], rc=r3["rc"], log=r3["log"][-200:],
+                                  first=last_ps(d3, 0)[1] if d3 and "error" not in d3 and d3["datasets"]["/PhaseSpace/data"]["dims"][0] else None,
+                                  final=last_ps(d3, -1)[1] if d3 and "error" not in d3 and d3["datasets"]["/PhaseSpace/data"]["dims"][0] else None)
+            for ext in ("", ".cfg", ".log"):
+                try:
+                    os.remove(inpl + ext)
+                except OSError:
+                    pass
         for r in (r1, r2):
             for ext in ("", ".cfg", ".log"):
                 try:
@@ -155,6 +170,14 @@ def run(res, tier):
         finalf, finalf_h = last_ps(fulls[g][1], -1)
         res.eval(case, pl.chash(case, final2_h), trivial=False)
         exact = rn < 0
+        ip = d2.get("_inplace")
+        if ip is not None:
+            res.eval(case + " continued in place", pl.chash(case, "inplace", ip["final"]), trivial=False)
+            res.coverage["continuations_written_over_their_start_file"] = res.coverage.get("continuations_written_over_their_start_file", 0) + 1
+            if ip["first"] != first2_h or ip["final"] != final2_h:
+                res.violate("C11/in-place-continuation-differs/%s" % ("run-failed" if ip["final"] is None else "loaded-state" if ip["first"] != first2_h else "end-state"), case,
+                            "the continuation written over the file it starts from (-i x.h5 -o x.h5) does not load / reach the same state as the one written to a new file (exit %s) %s" % (ip["rc"], ip["log"] if ip["final"] is None else ""),
+                            replay=dict(rp, inplace=ip["cmd"], note="copy the first leg's file to the -o path before running the in-place command"))
         mx = max(abs(x) for x in finalf)
         if not (mx > 0) or any(x != x for x in final2):
             # an empty or non-finite end state is not a state any continuation can be compared with: reported, never divided by
